@@ -8,6 +8,12 @@ and proofs are arithmetic.  No Mathlib import: this file is compiled into the na
 -/
 namespace CCT
 
+open Lean in
+/-- `ps! "abc"` is the list of code points `[97, 98, 99]` -/
+macro "ps!" s:str : term => do
+  let cs : Array (TSyntax `term) := (s.getString.toList.map fun c => Syntax.mkNumLit (toString c.toNat)).toArray
+  `(([$cs,*] : List Nat))
+
 abbrev PStr := List Nat          -- Python str: code points
 abbrev Txt := List Nat           -- text: code points of the JSON document
 
